@@ -12,7 +12,7 @@ from ..loader import AnalysisError
 from .valeq import check_typed_identity, check_json_bytes, check_enum_distinct
 from .c16 import sibling_reference_sites
 from .ladders import (extract_ladder, check_ladder_order, repo_subclass_pairs, handler_ladder, dispatch_model, _bound_value, _literal_seq,
-                      table_entries, _Unsupported, subst, sequence_elements, resolve_callee)
+                      table_entries, _Unsupported, subst, sequence_elements, resolve_callee, handler_type_names)
 from . import partition_model as PM
 
 RL = "runner_local.memento_run_local"
@@ -706,7 +706,7 @@ def check_order(ck, R):
     tr = [t for t in rl.stmts(ast.Try) if any(rl.inside(body, b) for b in t.body) and t.handlers]
     tr = tr[0] if tr else None
     ck.need(tr is not None, "memento_run_local: try around the body call not found")
-    n += check_ladder_order(ck, R, rl, handler_ladder(tr), pairs, "handlers")
+    n += check_ladder_order(ck, R, rl, handler_ladder(tr, rl.fi.module.assigns), pairs, "handlers")
     ck.need(n >= 4, "dispatch-order rule found only %d comparable pairs" % n)
 
 
@@ -847,9 +847,7 @@ def check_run_record_replay(ck, R):
     mn = rl.nodes_all(mem)
     tr = [t for t in rl.stmts(ast.Try) if any(rl.inside(body, b) for b in t.body) and t.handlers][0]
     def caught(h):
-        if h.type is None:
-            return []
-        return [A.norm(t) for t in (h.type.elts if isinstance(h.type, ast.Tuple) else [h.type])]
+        return handler_type_names(h, rl.fi.module.assigns)
 
     for h in tr.handlers:
         hn = [n.id for n in cfg.nodes if n.kind == "except" and n.ast is h]
@@ -934,7 +932,7 @@ def check_run_record_replay(ck, R):
     ck.ob(R, rl.key(None, "unwrap-before-classify"), bool(oku), "a KeyOverrideResult is unwrapped before the value is classified" if oku else
           "a KeyOverrideResult is not unwrapped before classification", rl.where())
     # (d) on the paths through the handler of ordinary exceptions
-    gen = [h for h in tr.handlers if h.type is not None and A.norm(h.type) == "Exception"]
+    gen = [h for h in tr.handlers if caught(h) == ["Exception"]]
     okd = False
     exc_rets = []
     if gen:
@@ -1082,12 +1080,7 @@ def check_replay(ck, R):
     mod_consts = tx.fi.module.assigns
 
     def handler_types(h):
-        if h.type is None:
-            return ["BaseException"]
-        t = h.type
-        if isinstance(t, ast.Name) and isinstance(mod_consts.get(t.id), ast.Tuple):
-            t = mod_consts[t.id]  # a module-level tuple of exception classes
-        return [A.norm(x) for x in (t.elts if isinstance(t, ast.Tuple) else [t])]
+        return handler_type_names(h, mod_consts) or ["BaseException"]
 
     def returns_self(h):
         """Once in the handler, the function can only end by returning self: no raise inside the handler, no falling
